@@ -2,7 +2,7 @@
    Property theorems only; each is closed by [exact] of a lemma from Proofs/. *)
 From Coq Require Import ZArith List Bool.
 From FT Require Import Model.Base Model.Obs Model.C08Split Model.C08SplitCheck
-                       Proofs.ObsP Proofs.C08SplitP Proofs.C08SplitCheckP.
+                       Proofs.ObsP Proofs.C08SplitP Proofs.C08UniformP Proofs.C08PositionP Proofs.C08SplitCheckP.
 Import ListNotations.
 Open Scope Z_scope.
 
@@ -109,12 +109,36 @@ Theorem C08_nonuniform_model : forall splits pre post rel d a es,
 Proof. exact nonuniform_is_ref. Qed.
 Print Assumptions C08_nonuniform_model.
 
-(* position-space splits (splitEqual / splitUnEqual / "//"): whatever boundaries the selection
-   loop picked, they are strictly ascending and the partitions are the reference map over them.
-   FULL STATEMENT still only oracle-checked: the boundaries are a0 followed by the first
-   coordinates of the chunks of [step] (resp. [sizes], remainder last) consecutive active
-   non-empty elements, i.e. eq_bounds = chunk_bounds (chunks ...) as in ref_bounds. *)
-Theorem C08_position_partial : forall pre post rel d a es,
+(* position-space splits (splitEqual / splitUnEqual / "//").  The operand the boundary loops
+   enumerate, iterActive, is the non-empty elements inside the active range ... *)
+Theorem C08_iter_active : forall d a0 a1 es,
+  ssorted (map fst es) = true -> iter_range d a0 a1 es = active_elems d (a0, a1) es.
+Proof. exact iter_range_active. Qed.
+Print Assumptions C08_iter_active.
+
+(* ... the boundaries "i == 0 -> active start; i % step == 0 -> coordinate" are the active start
+   followed by the first coordinates of the chunks of [step] consecutive elements (the last
+   chunk is the remainder) ... *)
+Theorem C08_equal_bounds : forall step a0, 0 < step -> forall l,
+  eq_bounds step a0 0 l
+  = chunk_bounds a0 (chunks (length l) (fun _ => Z.to_nat step) O l).
+Proof. exact eq_bounds_chunks. Qed.
+Print Assumptions C08_equal_bounds.
+
+(* ... and those of splitUnEqual (base / j bookkeeping, break when the sizes are used up) are the
+   active start followed by the first coordinates of the chunks of sizes[0], sizes[1], ...
+   elements, everything left over going into one extra last chunk *)
+Theorem C08_unequal_bounds : forall sizes a0 N,
+  pos_list sizes = true -> forall l, sizes <> [] -> (length l <= N)%nat ->
+  uneq_bounds sizes a0 0 0 O l
+  = chunk_bounds a0 (chunks (length l)
+      (fun j => match nth_error sizes j with Some z => Z.to_nat z | None => N end) O l).
+Proof. exact uneq_bounds_chunks. Qed.
+Print Assumptions C08_unequal_bounds.
+
+(* whatever boundaries the loops picked, they are strictly ascending and the partitions
+   (halos included) are the reference map over them *)
+Theorem C08_position_model : forall pre post rel d a es,
   0 <= pre -> 0 <= post -> ssorted (map fst es) = true ->
   (forall step,
      split_nonuniform_iter (eq_bounds step (fst a) 0 (iter_range d (fst a) (snd a) es)) pre post rel d a es
@@ -125,7 +149,7 @@ Theorem C08_position_partial : forall pre post rel d a es,
      = ref_parts pre post rel a (present d es)
                  (list_bounds (uneq_bounds sizes (fst a) 0 0 O (iter_range d (fst a) (snd a) es)))).
 Proof. exact position_is_ref. Qed.
-Print Assumptions C08_position_partial.
+Print Assumptions C08_position_model.
 
 (* uniform splits.  The oracle's boundaries are exactly the multiples of step whose interval
    meets the active range, ascending ... *)
@@ -140,36 +164,44 @@ Theorem C08_uniform_bounds_ascending : forall step a0 a1, 0 < step ->
 Proof. exact uni_bounds_sorted. Qed.
 Print Assumptions C08_uniform_bounds_ascending.
 
-(* ... and the partitions _SplitterUniform visits for an element (its floor-division window)
-   are exactly the multiples of step whose interval extended by the halos contains it.
-   FULL STATEMENT still only oracle-checked (C08_uniform_model):
-     forall step pre post rel d a es, 0 < step -> 0 <= pre -> 0 <= post -> fst a < snd a ->
-       ssorted (map fst es) = true ->
-       split_uniform step pre post rel d a es
-       = Some (ref_parts pre post rel a (present d es) (uni_bounds step (fst a) (snd a)))
-   (which includes: min(inds) never raises for a non-empty active range). *)
-Theorem C08_uniform_candidates_partial : forall step pre post c s,
+(* ... the partitions _SplitterUniform visits for an element (its floor-division window) are
+   exactly the multiples of step whose interval extended by the halos contains it ... *)
+Theorem C08_uniform_candidates : forall step pre post c s,
   0 < step -> 0 <= pre -> 0 <= post ->
   (In s (parts_of step pre post c) <-> exists k, s = k * step /\ s - pre <= c < s + step + post).
 Proof. exact parts_of_in. Qed.
-Print Assumptions C08_uniform_candidates_partial.
+Print Assumptions C08_uniform_candidates.
 
-Theorem C08_model_meets_spec_partial : forall c,
-  c08_wf c = true -> proved_kind (sp_kind (k_sp c)) = true -> k_resplit c = None ->
-  holds c08_checker c (model c08_checker c) = true.
-Proof. exact c08_model_holds_partial. Qed.
-Print Assumptions C08_model_meets_spec_partial.
+(* ... and the whole single-pass splitter — partitions created lazily in upper_coords, found
+   again through the search_start window, min(inds) — computes the reference map over those
+   boundaries, for every step, halos, non-empty active range and every fiber with strictly
+   ascending coordinates.  In particular min(inds) never raises (covering: an element inside
+   the halo-extended active range lies in some partition that meets the active range). *)
+Theorem C08_uniform_model : forall step pre post rel d a es,
+  0 < step -> 0 <= pre -> 0 <= post -> (es <> [] -> fst a < snd a) ->
+  ssorted (map fst es) = true ->
+  split_uniform step pre post rel d a es
+  = Some (ref_parts pre post rel a (present d es) (uni_bounds step (fst a) (snd a))).
+Proof. exact uniform_is_ref. Qed.
+Print Assumptions C08_uniform_model.
 
-(* FULL STATEMENT (not yet proved for every kind; checked by the oracle on the implementation
-   for every generated case of every kind):
-     Theorem C08_model_meets_spec : forall c, c08_wf c = true ->
-       holds c08_checker c (model c08_checker c) = true.
-   Proved above for kind = splitNonUniform at any depth, fiber or tensor entry, no re-split.
-   Missing: (a) _SplitterUniform's lazily created buckets = ref_parts over uni_bounds (needs the
-   invariant "upper_coords strictly ascending, keys before search_start cannot receive later
-   elements"; the arithmetic part is design-notes/calibration/Split.v);
-   (b) eq_bounds / uneq_bounds = chunk_bounds of the chunks (position-space boundary selection);
-   (c) re-splits (needs: every partition of the reference map is a well-formed fiber). *)
+(* every partition of the reference map (absolute coordinates) is again a well-formed fiber —
+   ascending non-negative coordinates, the operand's shape, a non-empty active range — so
+   partitions can be split again and the theorems above apply to the re-split *)
+Theorem C08_resplit_wf : forall pre post d shape active es bs p,
+  wf_fiber shape active es = true -> good_bounds bs ->
+  In p (ref_parts pre post false (get_active shape active es) (present d es) bs) ->
+  wf_fiber shape (Some (snd p)) (snd (fst p)) = true.
+Proof. exact ref_parts_wf. Qed.
+Print Assumptions C08_resplit_wf.
+
+(* the faithful model's observation meets the oracle for every well-formed case: every split
+   kind (uniform, non-uniform, equal, unequal, "/" and "//"), every depth, fiber or tensor entry
+   point, with or without a re-split of every partition *)
+Theorem C08_model_meets_spec : forall c,
+  c08_wf c = true -> holds c08_checker c (model c08_checker c) = true.
+Proof. exact c08_model_holds. Qed.
+Print Assumptions C08_model_meets_spec.
 
 (* non-vacuity: a well-formed non-uniform case with halos, an explicit default, an explicit
    estimated-from-shape active range and a second partition that lies outside the active range
@@ -180,7 +212,7 @@ Example C08_nonvacuous :
               k_tree := Node [(0, Leaf 2); (1, Leaf 0); (2, Leaf 2); (4, Leaf 1); (5, Leaf 7)];
               k_d := 0; k_shapes := [Some 6]; k_active := None; k_depth := O; k_tensor := false;
               k_resplit := None |} in
-  c08_wf c = true /\ proved_kind (sp_kind (k_sp c)) = true /\
+  c08_wf c = true /\
   c08_model c = VL [VL [VZ 0; VZ 6]; VL [VZ 6];
                     VL [VL [VZ 2; VL [VL [VZ 0; VZ 2]; VL [VZ 2; VZ 2]; VL [VZ 4; VZ 1]; VL [VZ 5; VZ 7]];
                             VL [VZ 2; VZ 6]; VL [VZ 6]]]] /\
